@@ -866,6 +866,17 @@ fn run_reader(plan: &Plan, image: &[u8], verbose: bool) -> Report {
             }
         }
     };
+    // Not part of C14 as stated (the loader owns its reader and only the returned value is
+    // specified), but worth telling a maintainer: how many bytes were taken from the reader
+    // depends on how it delivered them (read-ahead), which matters to callers that keep reading
+    // the same stream afterwards.
+    if violation.is_none() && matches!(plan.wrapper, Wrapper::Sim | Wrapper::Cursor) && plan.reader.error.is_none() {
+        if let Reference::Ok { consumed, .. } = &reference {
+            if l.result.is_ok() && l.consumed != *consumed {
+                facts.probes.push("NOTE:bytes-taken-from-the-reader-depend-on-the-delivery-pattern".into());
+            }
+        }
+    }
     facts.loaded = l.result.is_ok();
     dg.str(&facts.outcome);
     facts.digest = dg.finish();
